@@ -456,3 +456,5 @@ CHECKS["C13"]["harnesses"].append(dict(pkg="protocol", name="C14_idnorm", bound=
 _quick("C11", "C11_interleaved", "a counter key of capacity 5: holder A set it with INCR a; B goes pending with the require-ack flag and INCR b; A updates its hold with INCR c (applied, shown a+b); B's acknowledgement fails: the counter must be a+c for all 64-bit a, b, c (only the failed lock's own change is undone)", ["-witness", "1"], reach=[])
 
 _quick("C17", "C01_slowmap", "(also under C01) a held key whose manager lives in the ordinary key map, or shares one of 4 fast slots with a neighbour that is moved again: the key stays findable — the holder's unlock is accepted (reply LCount exact), a second request is refused, nothing is lost from the key table", ["-witness", "1"])
+
+_quick("C15", "C15_textttl", "every program of 3 Redis-style commands over a string key and a counter key out of {SET, SET .. EX 5, SETEX, APPEND, EXPIRE 5, PERSIST, INCR, DECR, INCRBY, DECRBY, EXPIRE 5, PERSIST}, then 8 s through the real sweeps: SET / SETEX / EXPIRE / PERSIST set the time to live, the other writers keep it; EXISTS afterwards answers as a plain key-value store", ["-witness", "20"], reach=["end", "kept", "expired"])
